@@ -221,6 +221,8 @@ def type_matches(T, v):
     if isinstance(T, str):
         if T == 'none':
             return v is None
+        if T == 'any':
+            return True
         if T == 'opaque':
             return isinstance(v, (Opaque, SDict))
         if T == 'optdict':
@@ -286,6 +288,9 @@ def select_case(E, c, bound, node, short):
             continue
         undecided.append((case, t))
     if not undecided:
+        if len(cands) == 1:
+            # the one case the argument TYPES select: its precondition is then an obligation of the caller (and fails there)
+            return cands[0]
         raise Unsupported('no contract case of %s matches the arguments at line %s' % (short, getattr(node, 'lineno', '?')))
     # helper preconditions of the case become obligations of the caller (first undecided candidate whose
     # discriminating requirement is satisfiable; remaining ones are explored as alternatives)
@@ -1772,16 +1777,21 @@ def np_swapaxes(E, args, node):
     raise Unsupported('swapaxes')
 
 
-@libfn('bycycle.group.utils.progress_bar')
-def progress_bar_contract(E, args, node):
-    """trusted contract of progress_bar (its body has a try/except around the optional tqdm import): the same items in
-    the same order, or ValueError for an unknown progress option"""
-    it = args.get(0, 'iterable')
-    progress = args.get(1, 'progress')
-    ok = lib.contains(E, (None, 'tqdm', 'tqdm.notebook'), progress, node)
-    if not E.branch(ok, 'progress-option'):
-        raise RaiseSig('ValueError', node, 'progress option')
-    return it
+@libfn('importlib.import_module')
+def importlib_import_module(E, args, node):
+    """an optional dependency: either the module (an opaque value) or ImportError - both outcomes are explored"""
+    if E.choose(2, 'import') == 1:
+        raise RaiseSig('ImportError', node, 'module not installed')
+    return Opaque(z3.Const(fresh_name('module'), ValSort), 'module')
+
+
+@method('Opaque.tqdm')
+def tqdm_tqdm(E, mod, args, node):
+    """ASSUMED contract of tqdm.tqdm(iterable, ...): iterating the wrapper yields the items of the iterable, in its order;
+    as far as items and order go the wrapper IS the iterable"""
+    if getattr(mod, 'note', None) != 'module':
+        raise Unsupported('.tqdm on %r' % (mod,))
+    return args.get(0, 'iterable')
 
 
 @libfn('copy.copy')
